@@ -29,6 +29,9 @@ var errStore = errors.New("injected store failure")
 
 func (s *store) GetChunk(id desync.ChunkID) (*desync.Chunk, error) {
 	if s.failing[id] {
+		if len(id) > 0 && id[0]%2 == 0 { // for half of the IDs: a failure whose chain contains io.EOF (a dropped connection) - still a failure
+			return nil, fmt.Errorf("injected store failure: connection closed: %w", io.EOF)
+		}
 		return nil, errStore
 	}
 	b, ok := s.chunks[id]
